@@ -674,7 +674,7 @@ func c03Driver(d *fw.D) {
 	if d.Counters["reentrant_runs_in_which_the_action_took_effect"] == 0 {
 		d.Inconclusive("re-entrant callbacks: no run in which the callback's action took effect")
 	}
-	full := d.Counters["reentrant_functions_examined"] >= 262
+	full := d.Counters["reentrant_functions_examined"] >= 200 // one whole pass over the registry
 	if n := len(d.Sets["reentrant_call_sites"]); full && n < 15 {
 		d.Inconclusive(fmt.Sprintf("re-entrant callbacks: discovery found only %d call sites", n))
 	}
